@@ -742,6 +742,15 @@ func (r *Replica) Restore(ctx context.Context, opt RestoreOptions) (err error) {
 	pr, pw := io.Pipe()
 
 	go func() {
+		// The ltx decoder slices into what it could read; a truncated input
+		// file makes it panic. Surface that as a restore error instead of
+		// crashing the process.
+		defer func() {
+			if r := recover(); r != nil {
+				_ = pw.CloseWithError(fmt.Errorf("ltx compactor: invalid ltx input: %v", r))
+			}
+		}()
+
 		c, err := ltx.NewCompactor(pw, rdrs)
 		if err != nil {
 			pw.CloseWithError(fmt.Errorf("new ltx compactor: %w", err))
